@@ -110,6 +110,11 @@ claim("C14", "model_checking",
       "Verlet.tla keeps x, p as integers scaled by 2^Q for the harmonic well with dt = 2^-S, where velocity Verlet is exact; TLC checks integrate-flip-integrate-flip = identity, N+1 force evaluations, exactness of every division, and exports the end point of every case; Verlet.integrate must reproduce each end point bit for bit (IEEE doubles are exact on these dyadics) with and without constraint application. On EMT / Lennard-Jones / quartic systems reversibility (<= 1e-9) and the log-log slope of the total-energy error are measured. The momentum refresh is driven with scripted normals (p = z sqrt(m kT), oddness), with forced rescaling (target temperature, also with fixed atoms) and sampled for its first moments. HamiltonianCanonical engine traces (vetoing check_move included) are validated by TLC: the reference kinetic energy at the move's return is that of the refreshed momenta.",
       "Trusted: TLC; exactness of IEEE arithmetic on dyadic rationals below 2^53. Bounds: S <= 3, N <= 3 (32-bit integers in TLC); the order clause and 'normal with variance m kT' are numeric/statistical (slope in [1.6, 2.6], |z| <= 6).", "5 C14")
 
+claim("C10", "model_checking",
+      "TLC over all 512 masks for the discrete mask semantics and as acceptor of recorded operation calls against the contracts of Proposal.tla (numeric predicates computed by the projection); statistical inversion-symmetry tests",
+      "Proposal.tla specifies (1) the blend of a raw gradient with the identity under a Boolean mask, checked by TLC for all 512 masks and replayed exactly on the three deformation kinds (also with the mask re-assigned on a live operation), and (2) which predicates each of the ten operation kinds owes (norm / range, rigidity, centre of mass, centroid in cell, sum of parts, scalar times identity, symmetric, positive-definite, unit determinant, masked identity); thousands of real calls over step sizes 1e-3..10, cubic to triclinic cells, groups of 1..5 atoms with unequal (also user-set) masses and random masks are judged by TLC. 'As likely as its inverse' and uniform translation are tested on the distributions of d, rotation vectors (Kabsch) and log F.",
+      "This is the property for which the family adds least: the real-valued clauses are decided by the numeric predicates (tolerances 1e-12 relative for norms, 1e-9 for geometry, 1e-10 for det) and the symmetry clause statistically (|z| <= 6); TLC decides the discrete mask semantics and the assignment of obligations to operations.", "5 C10")
+
 NOT_YET = "check not built yet in this round (planned in DESIGN.md section 5); will be claimed once its spec and conformance harness exist"
 
 
